@@ -38,9 +38,14 @@ SEG = 50
 OVERHEAD = 9
 
 
-def plen(k, seg=SEG):
-    """payload length that yields exactly k full segments"""
-    return k * seg - OVERHEAD
+def rq(k, seg=SEG):
+    """request payload length that yields exactly k full segments (6-octet segment header)"""
+    return k * (seg - 6) - OVERHEAD
+
+
+def rs(k, seg=SEG):
+    """response payload length that yields exactly k full segments (5-octet segment header)"""
+    return k * (seg - 5) - OVERHEAD
 
 
 def configs(tier):
@@ -55,40 +60,40 @@ def configs(tier):
     for r in (0, 1, 2, 3):
         add(d_small if r <= 1 or tier != "quick" else 2, c={"retries": r}, s={"retries": r}, reqs=[(0, 0)], label="unseg-r%d" % r)
     add(d_small, c={"retries": 1}, reqs=[(0, 0), (5, 5)], via="iocb", label="iocb-2queued")
-    add(d_big, c={"retries": 1}, reqs=[(0, plen(3)), (0, 0)], via="iocb", label="iocb-segresp-then-unseg")
+    add(d_big, c={"retries": 1}, reqs=[(0, rs(3)), (0, 0)], via="iocb", label="iocb-segresp-then-unseg")
     # on both sides of the boundary
-    for (a, b) in ((plen(1), plen(1)), (plen(1) + 1, 0), (0, plen(1) + 1)):
+    for (a, b) in ((rq(1), rs(1)), (rq(1) + 1, 0), (0, rs(1) + 1)):
         add(d_big, reqs=[(a, b)], label="boundary")
     # 3-segment transfers
-    add(d_small, reqs=[(0, plen(3))], label="segresp3")
-    add(d_small, reqs=[(plen(3), 0)], label="segreq3")
-    add(d_big, reqs=[(plen(3), plen(3))], label="both3")
-    add(d_big, reqs=[(plen(2) + 1, plen(2) + 1)], label="both-2seg+1")
+    add(d_small, reqs=[(0, rs(3))], label="segresp3")
+    add(d_small, reqs=[(rq(3), 0)], label="segreq3")
+    add(d_big, reqs=[(rq(3), rs(3))], label="both3")
+    add(d_big, reqs=[(rq(2) + 1, rs(2) + 1)], label="both-2seg+1")
     # windows
     wins = (1, 2, 3, 8) if tier != "quick" else (1, 3, 8)
     for wc in wins:
         for ws in wins:
             if tier == "quick" and wc != ws and (wc, ws) not in ((1, 8), (8, 1)):
                 continue
-            add(d_big, c={"window": wc}, s={"window": ws}, reqs=[(plen(4), plen(5))], label="win%d/%d" % (wc, ws))
+            add(d_big, c={"window": wc}, s={"window": ws}, reqs=[(rq(4), rs(5))], label="win%d/%d" % (wc, ws))
     # segmentation support 4 x 4
     segs = ("segmentedBoth", "segmentedTransmit", "segmentedReceive", "noSegmentation")
     for sc in segs:
         for ss in segs:
-            for reqs in ([(plen(2), 0)], [(0, plen(2))]):
+            for reqs in ([(rq(2), 0)], [(0, rs(2))]):
                 add(d_big, c={"seg": sc}, s={"seg": ss}, reqs=reqs, label="segsup")
     # answer modes and other reply kinds
     add(d_small, reqs=[(0, 0)], answer="hold", label="hold")
-    add(d_big, reqs=[(0, plen(3))], answer="hold", label="hold-segresp")
-    add(d_big, reqs=[(plen(3), 0)], answer="never", label="never")
+    add(d_big, reqs=[(0, rs(3))], answer="hold", label="hold-segresp")
+    add(d_big, reqs=[(rq(3), 0)], answer="never", label="never")
     add(d_small, reqs=[(0, 0)], answer="never", label="never-unseg")
     for kind in ("error", "reject", "abort"):
         add(d_small, reqs=[(0, 0)], resp_kind=kind, label=kind)
-        add(d_big, reqs=[(plen(3), 0)], resp_kind=kind, label=kind + "-segreq")
+        add(d_big, reqs=[(rq(3), 0)], resp_kind=kind, label=kind + "-segreq")
     # retries 3 on segmented transfers
     if tier != "quick":
-        add(d_big, c={"retries": 3}, s={"retries": 3}, reqs=[(0, plen(3))], label="segresp3-r3")
-        add(d_big, c={"retries": 3}, s={"retries": 3}, reqs=[(plen(3), 0)], label="segreq3-r3")
+        add(d_big, c={"retries": 3}, s={"retries": 3}, reqs=[(0, rs(3))], label="segresp3-r3")
+        add(d_big, c={"retries": 3}, s={"retries": 3}, reqs=[(rq(3), 0)], label="segreq3-r3")
         add(2, c={"maxapdu": 128}, s={"maxapdu": 128}, reqs=[(300, 300)], label="apdu128")
     return out
 
@@ -104,16 +109,16 @@ def closure_configs(tier):
     for r in (0, 1, 3):
         add(5000, c={"retries": r}, s={"retries": r}, reqs=[(0, 0)], label="closure-unseg-r%d" % r)
     for r in ((0, 1) if tier == "quick" else (0, 1, 3)):
-        add(20000, c={"retries": r}, s={"retries": r}, reqs=[(0, plen(3))], label="closure-segresp3-r%d" % r)
+        add(20000, c={"retries": r}, s={"retries": r}, reqs=[(0, rs(3))], label="closure-segresp3-r%d" % r)
     for r in ((0,) if tier == "quick" else (0, 1)):
-        add(30000, c={"retries": r}, s={"retries": r}, reqs=[(plen(3), 0)], label="closure-segreq3-r%d" % r)
-    add(20000, c={"retries": 0}, s={"retries": 0}, reqs=[(plen(3), plen(3))], label="closure-both3-r0")
+        add(30000, c={"retries": r}, s={"retries": r}, reqs=[(rq(3), 0)], label="closure-segreq3-r%d" % r)
+    add(20000, c={"retries": 0}, s={"retries": 0}, reqs=[(rq(3), rs(3))], label="closure-both3-r0")
     add(5000, c={"retries": 1}, s={"retries": 1}, reqs=[(0, 0)], answer="hold", label="closure-hold")
     add(5000, c={"retries": 1}, s={"retries": 1}, reqs=[(0, 0)], via="iocb", label="closure-iocb")
     if tier != "quick":
         add(60000, c={"retries": 1}, s={"retries": 1}, reqs=[(0, 0)], dupcap=1, reorder=1, label="closure-unseg-dup-reorder")
-        add(150000, c={"retries": 1}, s={"retries": 1}, reqs=[(0, plen(2))], dupcap=1, reorder=1, label="closure-segresp2-dup-reorder")
-        add(150000, c={"retries": 1}, s={"retries": 1}, reqs=[(plen(3), plen(3))], label="closure-both3-r1")
+        add(150000, c={"retries": 1}, s={"retries": 1}, reqs=[(0, rs(2))], dupcap=1, reorder=1, label="closure-segresp2-dup-reorder")
+        add(150000, c={"retries": 1}, s={"retries": 1}, reqs=[(rq(3), rs(3))], label="closure-both3-r1")
     return out
 
 
@@ -133,8 +138,8 @@ def judge(sysm, terminal=True):
                if any(c[3] == req.apduInvokeID for c in confs)}
     O.judge_payloads(sysm, got, problems)
     O.judge_late_frames(sysm, got, problems)
-    nreq = max(O.seg_count(r[0] + OVERHEAD, cfg.c["maxapdu"]) for r in cfg.reqs)
-    nresp = max(O.seg_count(r[1] + OVERHEAD, min(cfg.c["maxapdu"], cfg.s["maxapdu"])) for r in cfg.reqs)
+    nreq = max(O.seg_count(r[0] + OVERHEAD, cfg.c["maxapdu"] - 6) for r in cfg.reqs)
+    nresp = max(O.seg_count(r[1] + OVERHEAD, min(cfg.c["maxapdu"], cfg.s["maxapdu"]) - 5) for r in cfg.reqs)
     if terminal:
         O.judge_residue(sysm, problems)
         O.judge_timing(sysm, got, problems, nreq, nresp)
